@@ -448,8 +448,11 @@ def extract_loopfn(repo, ent):
     if ent.get('header'):
         # a statement region of a larger function, wrapped (mechanically) into a function of its own:
         # "header" is supplied by the unit, the body is the verbatim region
-        f = extract_entity(repo, dict(ent, kind='region', start=ent['region_start'], end=ent['region_end']))
-        f['text'] = ent['header'] + '\n{\n' + f['text'] + '}\n'
+        if ent.get('region_braced'):
+            f = extract_entity(repo, dict(ent, kind='braced', start=ent['region_start']))
+        else:
+            f = extract_entity(repo, dict(ent, kind='region', start=ent['region_start'], end=ent['region_end']))
+        f['text'] = ent['header'] + '\n{\n' + f['text'] + ent.get('footer', '') + '}\n'
         f['first_line'] -= 2
     else:
         f = extract_entity(repo, dict(ent, kind='func'))
